@@ -1,7 +1,7 @@
 # C21 cursor pagination (Ledger/Page.v)
 PROPS['C21'] = dict(
     target='Props/C21',
-    theorems=['C21_listing_is_sorted_permutation', 'C21_next_enumerates', 'C21_previous_is_page_before', 'C21_has_more_iff',
+    theorems=['C21_listing_is_sorted_permutation', 'C21_next_enumerates', 'C21_previous_is_page_before', 'C21_previous_walks_back', 'C21_has_more_iff',
               'C21_offset_next_enumerates_partial', 'C21_offset_next_enumerates_refuted', 'C21_offset_previous_is_page_before', 'C21_offset_has_more_iff'],
     ties=[dict(name='TIE-C paginators', vh='pagesyn', model='pages', n=dict(quick=3000, thorough=300000), kinds=['C21']),
           dict(name='TIE-D listings', vh='pages', model='pages', n=dict(quick=50, thorough=2500),
@@ -17,7 +17,7 @@ PROPS['C21'] = dict(
          'the first (all cursors decoded by the real UnmarshalCursor). case = (listing, keys in requested order, sizes, order, history); non-trivial = walk with >= 2 rows and page '
          'size < rows. Listings by timestamp whose timestamps repeat are outside the hypothesis (unique key) and only counted (nonunique_key_*).',
     explanation='Theorems are about Ledger/Page.v (fetch = WHERE/ORDER BY/LIMIT of Paginate, build_cursor = BuildCursor, same for the offset paginator). Column paginator: full statements proved '
-                '(next enumerates the sorted listing, each row once; previous of page k+1 = page k, none on page 1; HasMore iff rows after). Offset paginator: the unbounded statement is '
+                '(next enumerates the sorted listing, each row once; previous of page k+1 = page k, none on page 1; previous followed repeatedly visits pages k..1; HasMore iff rows after). Offset paginator: the unbounded statement is '
                 'REFUTED by the MaxInt32 guard of OffsetPaginator.Paginate (C21_offset_next_enumerates_refuted: any listing with more than MaxInt32+pageSize rows cannot be walked to the end; '
                 'the guard is replayed on the real code by TIE-C offsets 2^31, 2^32+5) and proved for listings of at most 2^31 rows (_partial). Monitor (independent of the model): concatenation of '
                 'next pages = full listing, no row twice, page length <= size, HasMore <=> next cursor <=> not last page, previous of page k+1 = page k, previous walk from the last page visits all '
